@@ -1,14 +1,26 @@
 #!/bin/bash
 # apply each seeded change to /repo, run the quick check of its property, undo; write seeded/RESULTS.md
 cd /verif
-out=seeded/RESULTS.md
+out=${SEEDED_OUT:-seeded/RESULTS.md}
 echo "| seeded change | property | caught by quick check | first lines |" > $out
 echo "|---|---|---|---|" >> $out
-for d in seeded/C??_?; do
+for d in ${SEEDED_GLOB:-seeded/C??_?}; do
   id=$(basename $d); P=${id%_*}
-  git -C /repo apply $d/patch.diff || { echo "| $id | $P | PATCH-FAILED | |" >> $out; continue; }
+  git -C /repo apply /verif/$d/patch.diff || { echo "| $id | $P | PATCH-FAILED | |" >> $out; continue; }
   res=$(./check $P 2>&1 | grep -v Warning | head -2 | tr '\n' ' ' | cut -c1-260 | tr '|' '/')
   rc=$(echo "$res" | grep -c VIOLATION)
+  rp=$(echo "$res" | grep -o 'replay=[^ ]*' | head -1 | cut -d= -f2)
+  if [ -n "$rp" ] && [ -f "$rp" ]; then
+    mkdir -p corpus/$P
+    python3 - "$rp" "corpus/$P/$id.json" <<'PY'
+import json,sys
+r=json.load(open(sys.argv[1]))
+c=r.get("case")
+if c is not None and r.get("kind")=="failing-input":
+    c.pop("_corpus",None)
+    json.dump(c,open(sys.argv[2],"w"))
+PY
+  fi
   git -C /repo checkout -- .
   echo "| $id | $P | $([ $rc -gt 0 ] && echo yes || echo NO) | $res |" >> $out
   echo "$id: $([ $rc -gt 0 ] && echo caught || echo MISSED)"
